@@ -171,7 +171,14 @@ def check(log, quiescent):
             elif r[4] == 'until' and r[6] == 'illegal-accepted':
                 viol.append(('C01.4', 'run(until=%r) at now=%r was not refused' % (r[5], r[8])))
     if quiescent and stats.get('observed_without_probes'):
-        quiescent = False      # without probes "took effect" is not recorded per occurrence
+        # without probes "took effect" is not recorded per occurrence - but every kernel step processes exactly one
+        # occurrence, so at an empty agenda the steps taken must number the occurrences triggered
+        quiescent = False
+        n_trig = sum(1 for r in log if r[0] == 'T')
+        n_step = len(set(r[3] for r in log if r[0] == 'N'))
+        if not any(r[0] == 'O' and r[6] == 'tick' for r in log) and n_trig != n_step:
+            viol.append(('C01.5', 'agenda empty after %d kernel steps although %d occurrences had been triggered: %s' %
+                         (n_step, n_trig, 'some never took effect' if n_trig > n_step else 'some took effect twice')))
     if quiescent:
         left = [(k, lb) for lb, lst in cur.items() for k, kind in lst]
         if left:
